@@ -46,12 +46,7 @@ Theorem c43_block_bloom_complete_evm : forall (K6 : bytes -> bytes) (adh : N) (l
   forall h txs, nth_error (blocks_of lops) (N.to_nat h) = Some txs ->
   forall l x, In l (all_logs txs) -> In x (l_addr l :: l_topics l) ->
   exists b, get_bloom_data (kv st) h = Some b /\ bloom_test K6 x b = true.
-Proof.
-  intros K6 adh lops st Hl Hevm Hr h txs Hn l x Hin Hx.
-  destruct (N.ltb_spec h adh) as [Hlt|Hge].
-  - rewrite (Hevm h txs Hn Hlt) in Hin. destruct Hin.
-  - exact (block_bloom_complete adh K6 lops st Hl Hr h txs Hn Hge l x Hin Hx).
-Qed.
+Proof. exact (fun K6 adh => block_bloom_complete_evm adh K6). Qed.
 Print Assumptions c43_block_bloom_complete_evm.
 
 (** Section part: every record [ReadBloomBits] finds decompresses (as the bloom backend does,
@@ -106,13 +101,7 @@ Theorem c43_keys_distinct : forall h h' i s i' s',
   (bloom_key h = bloom_key h' -> h = h') /\
   (bloom_bits_key i s = bloom_bits_key i' s' -> i = i' /\ s = s') /\
   bloom_key h <> bloom_bits_key i s.
-Proof.
-  intros h h' i s i' s' Hh Hh' Hi Hi' Hs Hs'. repeat split.
-  - apply bloom_key_inj; assumption.
-  - apply (bits_key_inj i s i' s' Hi Hi' Hs Hs' H).
-  - apply (bits_key_inj i s i' s' Hi Hi' Hs Hs' H).
-  - apply bloom_key_ne_bits_key.
-Qed.
+Proof. exact keys_distinct. Qed.
 Print Assumptions c43_keys_distinct.
 
 (** Non-vacuity: a chain of one full section (BloomBitsBlocks blocks) with a restart in the middle;
